@@ -1465,6 +1465,8 @@ impl<'de> de::SeqAccess<'de> for PrimitiveVecAccess<'de> {
         T: de::DeserializeSeed<'de>,
     {
         use serde::de::IntoDeserializer;
+        #[cfg(feature = "verif_hooks")]
+        crate::verif::step();
         if self.remaining == 0 {
             return Ok(None);
         }
@@ -1560,6 +1562,8 @@ impl<'de> de::SeqAccess<'de> for Compound<'_, 'de> {
     where
         T: de::DeserializeSeed<'de>,
     {
+        #[cfg(feature = "verif_hooks")]
+        crate::verif::step();
         match self.style {
             Style::Vector {
                 ref mut len,
@@ -1645,6 +1649,8 @@ impl<'de> de::MapAccess<'de> for Compound<'_, 'de> {
     where
         K: de::DeserializeSeed<'de>,
     {
+        #[cfg(feature = "verif_hooks")]
+        crate::verif::step();
         self.de.add_cost(4)?;
         match self.style {
             Style::Struct {
@@ -1751,6 +1757,8 @@ impl<'de> de::MapAccess<'de> for Compound<'_, 'de> {
     where
         V: de::DeserializeSeed<'de>,
     {
+        #[cfg(feature = "verif_hooks")]
+        crate::verif::step();
         match &self.style {
             Style::Map { expect, wire, .. } => {
                 #[cfg(feature = "bignum")]
@@ -1793,6 +1801,8 @@ impl<'de> de::EnumAccess<'de> for Compound<'_, 'de> {
     where
         V: de::DeserializeSeed<'de>,
     {
+        #[cfg(feature = "verif_hooks")]
+        crate::verif::step();
         self.de.add_cost(4)?;
         match &self.style {
             Style::Enum { expect, wire } => {
